@@ -15,6 +15,11 @@ import (
 
 	dbm "github.com/tendermint/tm-db"
 
+	"github.com/tendermint/tendermint/config"
+	"github.com/tendermint/tendermint/evidence"
+	"github.com/tendermint/tendermint/p2p"
+	"github.com/tendermint/tendermint/p2p/mock"
+
 	tmproto "github.com/tendermint/tendermint/proto/tendermint/types"
 	"github.com/tendermint/tendermint/types"
 
@@ -117,6 +122,19 @@ func classify(err error, ev types.Evidence) string {
 	}
 	return "err-other:" + strings.ReplaceAll(s, " ", "_")
 }
+
+// spyPeer: StopPeerForError first asks the peer whether it is running; answering no ends it there
+// (no transport needed) and records that the reactor wanted the peer stopped
+type spyPeer struct {
+	*mock.Peer
+	asked bool
+}
+
+func (p *spyPeer) IsRunning() bool { p.asked = true; return false }
+
+type peerHeight int64
+
+func (h peerHeight) GetHeight() int64 { return int64(h) }
 
 // guard: a panic of the code under test inside a verification is a result (the reactor's peer
 // goroutine recovers it; inside consensus it is a consensus failure)
@@ -356,7 +374,7 @@ func execOp(cp **chain, op string) (res string) {
 	if c.dead { // a panic killed the process: only a restart (and the stores) continue
 		switch f[0] {
 		case "grow", "restart":
-		case "add", "check", "update", "cupdate", "report", "pe":
+		case "add", "check", "update", "cupdate", "report", "pe", "recv":
 			if r := deadOp(c, f[0], m); r != "" {
 				return r
 			}
@@ -498,6 +516,50 @@ func execOp(cp **chain, op string) (res string) {
 			c.pool.ReportConflictingVotes(&a, &b)
 		}
 		return "ok " + c.view()
+	case "recv":
+		l, okL := get("l")
+		ds, ok := c.lookupAll(l, okL)
+		if !ok {
+			return "bad-op"
+		}
+		var msg tmproto.EvidenceList
+		for _, d := range ds {
+			pb, err := types.EvidenceToProto(d.raw)
+			if err != nil {
+				return "bad-op"
+			}
+			msg.Evidence = append(msg.Evidence, *pb)
+		}
+		// over the wire and back, as MConnection delivers it
+		bz, err := msg.Marshal()
+		var dec tmproto.EvidenceList
+		if err != nil || dec.Unmarshal(bz) != nil {
+			return "bad-op"
+		}
+		evR := evidence.NewReactor(c.pool)
+		evR.SetSwitch(p2p.NewSwitch(config.DefaultP2PConfig(), nil))
+		peer := &spyPeer{Peer: mock.NewPeer(nil)}
+		_, pan := guard(func() error {
+			evR.ReceiveEnvelope(p2p.Envelope{ChannelID: evidence.EvidenceChannel, Src: peer, Message: &dec})
+			return nil
+		})
+		if pan {
+			return "panic " + c.view()
+		}
+		return fmt.Sprintf("recv stop=%s %s", b01(peer.asked), c.view())
+	case "prep":
+		d, ok := c.defs[m["e"]]
+		ph, okP := get("ph")
+		if !ok || !okP || (ph != "-" && !isInt(ph, true)) {
+			return "bad-op"
+		}
+		peer := mock.NewPeer(nil)
+		if ph != "-" {
+			H, _ := strconv.ParseInt(ph, 10, 64)
+			peer.Set(types.PeerStateKey, peerHeight(H))
+		}
+		evR := evidence.NewReactor(c.pool)
+		return fmt.Sprintf("prep send=%s", b01(len(evR.VerifPrepareEvidenceMessage(peer, d.ev)) > 0))
 	case "restart":
 		if len(f) != 1 {
 			return "bad-op"
@@ -564,6 +626,9 @@ func deadOp(c *chain, op string, m map[string]string) string {
 	case "pe":
 		mx, okM := m["max"]
 		ok = isInt(mx, okM)
+	case "recv":
+		l, has := m["l"]
+		_, ok = c.lookupAll(l, has)
 	}
 	if !ok {
 		return ""
